@@ -21,10 +21,13 @@ META = {
     "note": "Trusted: Coq kernel, translator (size_t arithmetic as unbounded Z), ExtrOcamlBasic extraction + OCaml "
             "driver, C++ harness.  Modelled not verified: SIMD group load = 16 consecutive control bytes, the "
             "allocator, element construction/destruction (a destroyed slot is 'None'), ConcurrentAdder as a "
-            "plain counter (sequential view; the concurrent view is C03).  The positive theorem needs an explicit "
-            "bucket count at construction unless `code_is_fixed` (begin() follows node->next, total_size starts "
-            "from _head.table.size()) holds of the regenerated definitions; for the current source the "
-            "default-constructed case is refuted in Coq and reproduced on the real classes (finding F1).",
+            "plain counter (sequential view; the concurrent view is C03).  GAP: c18_refines_set is proved for "
+            "containers constructed with an explicit bucket count (any value); for a default-constructed container "
+            "the statement is refuted in Coq on the faithful model (c18_default_size_plus_16: size()+16; "
+            "c18_default_iteration_stops: 49 inserted, 32 visited) and the witnesses reproduce on the real classes "
+            "(finding F1, signatures default-ctor-size / default-ctor-iter in KNOWN_FINDINGS.txt).  After the "
+            "repair the regenerated begin_chained_next / begin_loop_next / total_size_init change, the refuted "
+            "theorems stop compiling and the invariant has to admit the placeholder head (see Properties_C18.v).",
 }
 
 TYPES = {0: "set<uint64>", 1: "map<uint64,uint64>", 2: "set<string>", 3: "map<uint64,unique_ptr>", 4: "map<string,string>"}
@@ -168,8 +171,8 @@ def make_cases(chk):
     g = Gen(chk.rng)
     thorough = chk.tier == "thorough"
     lines = list(WITNESSES)
-    n_grow = 1400 if thorough else 330
-    n_rand = 1200 if thorough else 220
+    n_grow = 2400 if thorough else 600
+    n_rand = 2000 if thorough else 400
     i = 0
     for j in range(n_grow):
         ty = j % 5
@@ -210,7 +213,16 @@ def main(argv):
         lines = make_cases(chk)
     chk.log("%d cases" % len(lines))
     by_id = {l.split()[0]: l for l in lines}
-    impl_out = chk.run_cases(impl, lines, timeout=240) if impl else {}
+    impl_out = {}
+    if impl:
+        # canary: if the real container hangs/crashes on several of the first cases, do not grind through the rest
+        canary = lines[:48]
+        impl_out = chk.run_cases(impl, canary, timeout=120)
+        dead = [c for c, l in impl_out.items() if l.startswith("CRASH") or " | " not in l]
+        if len(dead) < 3:
+            impl_out.update(chk.run_cases(impl, lines[48:], timeout=240))
+        else:
+            chk.log("real container crashes or hangs on %d of the first %d cases; remaining cases skipped" % (len(dead), len(canary)))
     model_out = chk.run_cases(model, lines, timeout=600) if model else {}
     validated = 0
     nontrivial = set()
@@ -288,7 +300,6 @@ def main(argv):
         "modelled not verified: SIMD group load, allocator, element ctor/dtor, ConcurrentAdder as a counter",
     ]
     chk.assumptions = ["sequential use (quiescent points); the concurrent insert path is property C03",
-                       "positive theorem: containers constructed with an explicit bucket count, or the source satisfies "
-                       "code_is_fixed (see Properties_C18.v)",
+                       "positive theorem: containers constructed with an explicit bucket count (default-constructed: refuted, F1)",
                        "no size_t overflow of bucket counts"]
     chk.finish("proof")
